@@ -108,11 +108,25 @@ Definition conv_free_node (n : node) : bool :=
   | NTools _ ts => forallb conv_free_tool ts
   end.
 Definition conv_free_stages (sts : list (list node)) : bool := forallb (forallb conv_free_node) sts.
-Definition conv_free (F : forest) : bool := forallb (fun g => conv_free_stages (g_stages g)) F.
+Definition br_free (b : brb) : bool := match b with BrPanic _ => false | _ => true end.
+(* no graph of the forest makes a self-panicking stream, and the branch condition of the TOP graph
+   does not panic (below the top level a panicking condition is contained by the parent) *)
+Definition conv_free (F : forest) : bool :=
+  forallb (fun g => conv_free_stages (g_stages g)) F &&
+  match F with g :: _ => br_free (g_br g) | [] => true end.
+
+(* a branch condition that does not panic, reading a stream that does not: no panic *)
+Lemma branch_eval_safe : forall stream br it i, br_free br = true -> existsb is_lazy it = false ->
+  branch_eval stream br it <> BPanicI i.
+Proof.
+  intros stream br it i Hb Hit. unfold branch_eval.
+  destruct br as [| |be|bi]; try discriminate; destruct it as [|[e0|j] it']; try discriminate.
+Qed.
 
 Definition nres_safe (r : nres) : Prop := match r with NOk it _ => no_lazy it | _ => True end.
-Definition gres_safe (r : gres) : Prop :=
-  match r with GDone its _ => no_lazy its | GPanic _ => False | _ => True end.
+(* [top]: the run is the one the caller started — no panic may leave it *)
+Definition gres_safe (top : bool) (r : gres) : Prop :=
+  match r with GDone its _ => no_lazy its | GPanic _ => top = false | _ => True end.
 
 Lemma exec_lambda_safe : forall stream items f b,
   conv_free_behav b = true -> no_lazy items -> nres_safe (exec_lambda stream items f b).
@@ -152,15 +166,15 @@ Qed.
 Section Safe.
   Variable F : forest.
   Variable stream : bool.
-  Hypothesis HF : conv_free F = true.
+  Hypothesis HF : forallb (fun g => conv_free_stages (g_stages g)) F = true.
 
   Definition rec_safe (rec : graph -> list item -> bool -> gres) : Prop :=
     forall g items canc, conv_free_stages (g_stages g) = true -> no_lazy items ->
-      gres_safe (rec g items canc).
+      gres_safe false (rec g items canc).
 
   Lemma forest_graph_free : forall gi g, nth_error F gi = Some g -> conv_free_stages (g_stages g) = true.
   Proof.
-    intros gi g H. unfold conv_free in HF. rewrite forallb_forall in HF.
+    intros gi g H. rewrite forallb_forall in HF.
     apply (HF g). eapply nth_error_In; eauto.
   Qed.
 
@@ -175,11 +189,12 @@ Section Safe.
     - apply exec_tools_safe. exact Hn.
   Qed.
 
-  Lemma steps_safe : forall rec all loop, rec_safe rec -> conv_free_stages all = true ->
+  Lemma steps_safe : forall rec all loop br top, rec_safe rec -> conv_free_stages all = true ->
+    (top = true -> br_free br = true) ->
     forall k cur items canc, conv_free_stages cur = true -> no_lazy items ->
-      gres_safe (steps F stream rec all loop k cur items canc).
+      gres_safe top (steps F stream rec all loop br k cur items canc).
   Proof.
-    intros rec all loop Hrec Hall. induction k as [|k IH]; intros cur items canc Hcur Hit.
+    intros rec all loop br top Hrec Hall Hbr. induction k as [|k IH]; intros cur items canc Hcur Hit.
     - destruct cur; cbn; [exact Hit|]. destruct canc; exact I.
     - destruct cur as [|st rest]; cbn [steps]; [exact Hit|].
       destruct canc; [exact I|].
@@ -196,16 +211,28 @@ Section Safe.
       destruct (any_int rs).
       + rewrite (no_lazy_first _ Hsafe). destruct (item_errors (all_items rs)); exact I.
       + destruct rest as [|st' rest'].
-        * destruct loop.
-          -- apply IH; [exact Hall|]. apply fanin_no_lazy, fanout_no_lazy. exact Hsafe.
-          -- cbn [gres_safe]. apply fanin_no_lazy, fanout_no_lazy. exact Hsafe.
+        * pose proof (branch_eval_safe stream br (all_items rs)) as Hbe.
+          destruct (branch_eval stream br (all_items rs)) as [|be|bi]; [|exact I|].
+          -- destruct loop.
+             ++ apply IH; [exact Hall|]. apply fanin_no_lazy, fanout_no_lazy. exact Hsafe.
+             ++ cbn [gres_safe]. apply fanin_no_lazy, fanout_no_lazy. exact Hsafe.
+          -- cbn [gres_safe]. destruct top; [|reflexivity].
+             exfalso. exact (Hbe bi (Hbr eq_refl) Hsafe eq_refl).
         * apply IH; [exact Hrest|]. apply fanin_no_lazy, fanout_no_lazy. exact Hsafe.
   Qed.
 
   Lemma run_graph_safe : forall d, rec_safe (run_graph F stream d).
   Proof.
     induction d as [|d IH]; intros g items canc Hg Hit; cbn [run_graph]; [exact I|].
-    apply steps_safe; auto. apply fanout_no_lazy. exact Hit.
+    apply steps_safe; auto; [discriminate|]. apply fanout_no_lazy. exact Hit.
+  Qed.
+
+  Lemma run_graph_top_safe : forall d g items canc,
+    conv_free_stages (g_stages g) = true -> br_free (g_br g) = true -> no_lazy items ->
+    gres_safe true (run_graph F stream d g items canc).
+  Proof.
+    intros d g items canc Hg Hb Hit. destruct d as [|d]; cbn [run_graph]; [exact I|].
+    apply steps_safe; auto; [apply run_graph_safe|]. apply fanout_no_lazy. exact Hit.
   Qed.
 End Safe.
 
@@ -214,18 +241,19 @@ Lemma no_panic_escapes_lemma : forall F p cancel_before in_item,
   conv_free F = true -> ~ In APanic (answers F p cancel_before in_item).
 Proof.
   intros F p cb ii HF Hin. unfold answers in Hin. destruct F as [|g F']; [destruct Hin as [H|[]]; discriminate|].
+  unfold conv_free in HF. apply andb_true_iff in HF. destruct HF as [HFs Hbr].
   set (stream := match p with PInvoke => false | _ => true end) in *.
   set (items := match p, ii with (PCollect | PTransform), Some e => [IErr e] | _, _ => [] end) in *.
   assert (Hit : no_lazy items) by (unfold items; destruct p, ii; reflexivity).
   assert (Hg : conv_free_stages (g_stages g) = true).
-  { unfold conv_free in HF. cbn [forallb] in HF. apply andb_true_iff in HF. tauto. }
-  pose proof (run_graph_safe (g :: F') stream HF (S (List.length (g :: F'))) g items cb Hg Hit) as Hs.
+  { cbn [forallb] in HFs. apply andb_true_iff in HFs. tauto. }
+  pose proof (run_graph_top_safe (g :: F') stream HFs (S (List.length (g :: F'))) g items cb Hg Hbr Hit) as Hs.
   destruct (run_graph (g :: F') stream (S (List.length (g :: F'))) g items cb) as [its c|es| |i|]; cbn in Hs.
   - destruct its as [|it0 its']; [destruct Hin as [H|[]]; discriminate|].
     apply in_map_iff in Hin. destruct Hin as [it [Heq Hi]].
     pose proof (no_lazy_In _ _ Hs Hi) as Hl. destruct it; [destruct p; discriminate|discriminate].
   - apply in_map_iff in Hin. destruct Hin as [e [Heq _]]. discriminate.
   - destruct Hin as [H|[]]; discriminate.
-  - exact Hs.
+  - discriminate.
   - destruct Hin as [H|[]]; discriminate.
 Qed.
